@@ -1,7 +1,9 @@
 '''Shape family (spec/SFShape.tla, MC_SHAPE): reindex / roll / shift / head / tail / duplicated / drop_duplicated /
-isin / transpose / clip.  Run from the C03 check: every case is executed on block layouts of the same logical Frame
+isin / transpose / clip / searchsorted / level relabelling / element maps.  Run from the C03 check: every case is executed on block layouts of the same logical Frame
 and compared with the ONE result the specification prescribes (R: every state of MC_SHAPE; V: seeded random cases
 validated by Trace_Ops).'''
+from fractions import Fraction
+
 from .. import project as P
 from . import common as C, ops
 
@@ -61,6 +63,13 @@ def call(cs, f, s):
         return f.relabel_level_drop(**{'index' if cs['axis'] == 0 else 'columns': cs['n']})
     if op == 'f_rehierarch':
         return f.rehierarch(**{'index' if cs['axis'] == 0 else 'columns': list(cs['dm'])})
+    if op == 's_searchsorted':
+        q = [P.dec(x) for x in cs['q']]
+        q = q if cs['many'] else q[0]
+        target = s if cs['on'] == 'values' else s.index
+        if cs['loc']:
+            return target.loc_searchsorted(q, side_left=cs['left'], fill_value=P.dec(cs['v']))
+        return target.iloc_searchsorted(q, side_left=cs['left'])
     if op in ('s_map', 'f_map'):
         node = (s if op == 's_map' else f).iter_element()
         mapping = {P.dec(k): P.dec(v) for k, v in zip(cs['keys'], cs['vals'])}
@@ -74,6 +83,7 @@ def call(cs, f, s):
 
 OPS = ('s_reindex', 'f_reindex', 's_roll', 's_shift', 'f_roll', 'f_shift', 's_head', 'f_head', 's_duplicated', 's_drop_duplicated',
        'f_duplicated', 'f_drop_duplicated', 's_isin', 'f_isin', 'f_transpose', 's_clip', 'f_clip',
+       's_searchsorted',
        's_level_add', 's_level_drop', 's_rehierarch', 'f_level_add', 'f_level_drop', 'f_rehierarch', 's_map', 'f_map')
 HIER_OPS = OPS[-8:-2]
 
@@ -222,12 +232,65 @@ def gen_map(rng, op):
     return cs, lay
 
 
+def gen_searchsorted(rng):
+    '''positions / labels at which values would be inserted: ascending values or labels (numbers, with repeats; dates), rarely not ascending'''
+    n = rng.randint(0, 6)
+    on = rng.choice(['values', 'index', 'index'])
+    kind = rng.choice(['i', 'f', 'd']) if on == 'index' else rng.choice(['i', 'f'])
+
+    def asc(k):
+        if kind == 'd':
+            base = rng.choice([0, 18000])
+            return [['d', 'D', base + x] for x in sorted(rng.sample(range(0, 12), k))]
+        xs = sorted(rng.randint(-4, 8) for _ in range(k))
+        if on == 'index':
+            xs = sorted(set(xs))
+        if kind == 'i':
+            return [['i', x] for x in xs]
+        out = []
+        for x in xs:
+            fr = Fraction(2 * x + rng.choice([0, 0, 1]), 2)
+            out.append(['f', fr.numerator, fr.denominator])
+        out.sort(key=lambda v: Fraction(v[1], v[2]))
+        if on == 'index':
+            seen, uniq = set(), []
+            for v in out:
+                if (v[1], v[2]) not in seen:
+                    seen.add((v[1], v[2]))
+                    uniq.append(v)
+            out = uniq
+        return out
+    keys = asc(n)
+    n = len(keys)
+    if n >= 2 and rng.random() < 0.06:
+        keys[0], keys[-1] = keys[-1], keys[0]          # not ascending: nothing is promised
+    if on == 'values':
+        s = {'index': C.rand_labels(rng, n, rng.choice(['str', 'int'])), 'vals': keys, 'dt': ['i', 64] if kind == 'i' else ['f', 64], 'name': ['none']}
+    else:
+        s = {'index': keys, 'vals': [['i', i] for i in range(n)], 'dt': ['i', 64], 'name': ['none']}
+
+    def query():
+        if kind == 'd':
+            base = keys[0][2] if keys else 0
+            return ['d', 'D', base + rng.randint(-2, 13)]
+        if rng.random() < 0.5 and keys:
+            return list(rng.choice(keys))
+        x = Fraction(rng.randint(-11, 19), 2)
+        return ['i', int(x)] if x.denominator == 1 else ['f', x.numerator, x.denominator]
+    many = rng.random() < 0.5
+    q = [query() for _ in range(rng.randint(1, 4) if many else 1)]
+    fill = rng.choice([['nan'], ['nan'], ['i', -1], ['none']])
+    return {'op': 's_searchsorted', 's': s, 'on': on, 'q': q, 'many': many, 'left': rng.random() < 0.5, 'loc': rng.random() < 0.6, 'v': fill}
+
+
 def gen_case(rng):
     op = rng.choice(OPS)
     if op in HIER_OPS:
         return gen_hier(rng, op)
     if op in ('s_map', 'f_map'):
         return gen_map(rng, op)
+    if op == 's_searchsorted':
+        return gen_searchsorted(rng), None
     ik = rng.choice(['str', 'int', 'intshift'])
     if op.startswith('s_'):
         if op in ('s_duplicated', 's_drop_duplicated'):
